@@ -412,7 +412,7 @@ class Program:
 
     def fn(self, name, sig=None, required=True):
         """The unique function with this qualified name (and id if given)."""
-        c = self.by_id.get(name) if "(" in name else self.by_name.get(name)
+        c = self.by_id.get(name) if name.endswith((")", ")const")) else self.by_name.get(name)
         if not c:
             if required:
                 raise AnalysisBroken("anchor function vanished: " + name)
